@@ -80,7 +80,7 @@ fn dispatch(args: &[String]) -> i32 {
 const WATCHDOG_EXIT: i32 = 87;
 /// wall time after which a single run is declared hung (only ever used to give up)
 fn hang_limit_s(thorough: bool) -> u64 {
-    std::env::var("VERIF_HANG_LIMIT_S").ok().and_then(|s| s.parse().ok()).unwrap_or(if thorough { 600 } else { 180 })
+    std::env::var("VERIF_HANG_LIMIT_S").ok().and_then(|s| s.parse().ok()).unwrap_or(if thorough { 900 } else { 300 })
 }
 
 fn cmd_check(args: &[String]) -> i32 {
